@@ -300,6 +300,30 @@ def decide(prop, tier, repo, seed, only_units=None, quiet=False):
             transformations += [dict(t, unit=name) for t in main.transformations]
             trusted += ["[%s] %s" % (name, t) for t in trusted_scan(main.text)]
             ev["assumptions"] += ["[%s] %s" % (name, a) for a in u.get("assumptions", [])]
+        # ---- bounded stand-ins that ALWAYS run ([[bounded]] in unit.toml): functions that cannot be brought within the verifier's
+        #      reach (iterator adapters, f32, actix middleware).  Labelled bounded, never counted as proved.
+        import native as _native
+        bjobs = []
+        for u in mine:
+            for bd in u.get("bounded", []):
+                if prop in bd.get("properties", u["properties"]) and os.path.isdir(os.path.join(repo, "src")) and not os.environ.get("VERIF_SKIP_BOUNDED"):
+                    bjobs.append((u, bd))
+        if bjobs:
+            mods = [(bd["module_file"], os.path.join(VERIF, "units", u["name"], bd["test"])) for (u, bd) in bjobs]
+            try:
+                rc, out = _native.run_native(mods, bjobs[0][1]["filter"], repo=repo, extra_args=[bd["filter"] for (_, bd) in bjobs[1:]])
+            except Exception as e:
+                rc, out = None, str(e)
+            for (u, bd) in bjobs:
+                ok = rc == 0 and re.search(r"test \S*%s \.\.\. ok" % re.escape(bd["filter"]), out) is not None
+                failed = rc not in (0, None) and re.search(r"test \S*%s \.\.\. FAILED" % re.escape(bd["filter"]), out) is not None
+                bounded_runs.append({"unit": u["name"], "stands_for": bd.get("stands_for", ""), "bound": bd["bound"], "ran": rc is not None,
+                                     "passed": bool(ok), "label": "bounded stand-in (always run), not proof"})
+                if failed:
+                    msg = [l for l in out.split("\n") if "VX-BOUNDED" in l or "panicked" in l][:4]
+                    fallback_violations.append((u["name"], {"bound": bd["bound"], "module_file": bd["module_file"], "test": bd["test"], "filter": bd["filter"]}, msg, out))
+                elif not ok:
+                    undecided.append("unit %s: bounded stand-in %s did not run to a verdict: %s" % (u["name"], bd["filter"], out[-600:]))
         # ---- thorough tier: the bounded stand-ins run unconditionally (they exercise the real code natively over a stated domain)
         if tier == "thorough":
             import native
